@@ -248,6 +248,22 @@ func (e *Engine) loopRunsClosures(li *loopInfo) bool {
 	return false
 }
 
+// loopCallsFunctionValue: the loop body itself calls a function value (not an interface method, which cannot be one
+// of this function's closures unless it was handed over explicitly).
+func (e *Engine) loopCallsFunctionValue(li *loopInfo) bool {
+	for b := range li.body {
+		for _, in := range b.Instrs {
+			if ci, ok := in.(ssa.CallInstruction); ok {
+				cc := ci.Common()
+				if _, bi := cc.Value.(*ssa.Builtin); !bi && !cc.IsInvoke() && cc.StaticCallee() == nil {
+					return true
+				}
+			}
+		}
+	}
+	return false
+}
+
 // havocKnownClosureWrites gives arbitrary contents to every variable that a closure known to this execution (held
 // in a register or cell of any active frame, or registered as a function-value term) may write.
 func (e *Engine) havocKnownClosureWrites(st *State) {
